@@ -888,18 +888,20 @@ func filterRemovetags(in *Value, param *Value) (*Value, *Error) {
 				OrigError: fmt.Errorf("invalid tag '%s'", tag),
 			}
 		}
-
-		re, err := regexp.Compile(fmt.Sprintf("</?%s/?>", tag))
-		if err != nil {
-			return nil, &Error{
-				Sender:    "filter:removetags",
-				OrigError: fmt.Errorf("removetags-filter regexp error with tag '%s': %v", tag, err),
-			}
-		}
-		s = re.ReplaceAllString(s, "")
 	}
 
-	return AsValue(strings.TrimSpace(s)), nil
+	// (all names in one expression and one pass: removing one tag must not make up
+	// another one from the text around it, "<<b>i>" keeps its "<i>")
+	re, err := regexp.Compile(fmt.Sprintf("</?(?:%s)/?>", strings.Join(tags, "|")))
+	if err != nil {
+		return nil, &Error{
+			Sender:    "filter:removetags",
+			OrigError: fmt.Errorf("removetags-filter regexp error with tags '%s': %v", param.String(), err),
+		}
+	}
+
+	// (only the named tags are removed: surrounding white space is text)
+	return AsValue(re.ReplaceAllString(s, "")), nil
 }
 
 func filterRjust(in *Value, param *Value) (*Value, *Error) {
